@@ -27,7 +27,7 @@ MCNext == \/ (NextReq # 0 /\ Add(NextReq, FreshId) /\ UNCHANGED <<nmsg, badFrom,
                                                        /\ badFrom' = (IF BadBody(e) THEN badFrom \cup {r} ELSE badFrom) /\ UNCHANGED ran)
           \/ (~Http /\ \E how \in {"closed", "reset"} : PeerEnds(how) /\ UNCHANGED <<nmsg, badFrom, ran>>)
           \/ (~Http /\ \E m \in {"ready", "notready", "noout", "hup", "err"} : SetPoll(m) /\ UNCHANGED <<nmsg, badFrom, ran>>)
-          \/ (~Http /\ \E m \in {"ok", "fail"} : SetOpen(m) /\ UNCHANGED <<nmsg, badFrom, ran>>)
+          \/ (\E m \in {"ok", "fail"} : SetOpen(m) /\ UNCHANGED <<nmsg, badFrom, ran>>)
           \/ (clock < MaxClock /\ Tick(1) /\ UNCHANGED <<nmsg, badFrom, ran>>)
 MCSpec == MCInit /\ [][MCNext]_<<vars, nmsg, badFrom, ran>>
 (* ---- liveness: "a request is never lost" as a temporal property.  Under weak fairness of Run and of the clock, every accepted request is     *)
@@ -44,7 +44,7 @@ LiveNext == \/ (NextReq # 0 /\ EnvQuiet /\ Add(NextReq, FreshId) /\ UNCHANGED <<
             \/ (EnvQuiet /\ \E r \in Reqs : \E e \in Outcomes(r) : nmsg < MaxMsgs /\ ExchangeCompletes(e) /\ nmsg' = nmsg + 1 /\ UNCHANGED <<badFrom, ran>>)
             \/ (~Http /\ EnvQuiet /\ \E how \in {"closed", "reset"} : PeerEnds(how) /\ UNCHANGED <<nmsg, badFrom, ran>>)
             \/ (~Http /\ EnvQuiet /\ \E m \in {"ready", "notready", "noout", "hup"} : SetPoll(m) /\ UNCHANGED <<nmsg, badFrom, ran>>)
-            \/ (~Http /\ EnvQuiet /\ \E m \in {"ok", "fail"} : SetOpen(m) /\ UNCHANGED <<nmsg, badFrom, ran>>)
+            \/ (EnvQuiet /\ \E m \in {"ok", "fail"} : SetOpen(m) /\ UNCHANGED <<nmsg, badFrom, ran>>)
             \/ (clock < MaxClock /\ ran /\ Tick(1) /\ ran' = FALSE /\ UNCHANGED <<nmsg, badFrom>>)
 FairSpec == /\ MCInit /\ [][LiveNext]_mcvars
             /\ WF_mcvars(\E h \in Reqs \cup {0} : Run(h) /\ ran' = TRUE /\ UNCHANGED <<nmsg, badFrom>>)
